@@ -5,6 +5,9 @@ From Coq Require Import List NArith ZArith Bool Lia.
 From VRL Require Import Base.Bytes Base.Value Base.Lit Model.ConvRes Model.IntText Model.Ip Model.Entries
   Model.Flatten Model.UnixTs Model.TsText
   Proofs.IntTextProofs Proofs.IpProofs Proofs.Ip6Proofs Proofs.EntriesProofs Proofs.UnixTsProofs Proofs.FlattenProofs.
+(* no statement below uses it: required only so that building this file also rebuilds the correspondence
+   glue against the same compiled models *)
+From VRL Require Corr.C25.
 Import ListNotations.
 Local Open Scope list_scope.
 Local Open Scope Z_scope.
